@@ -91,6 +91,13 @@ def run(res, prop, props_v, monitor, quick_n=(110, 36), thorough_n=(1500, 60), r
     else:
         pr = vlib.coq_check_props(props_v, runners=["Run/BrokerScript.v"])
         res.add_proof(pr, CHECKER_TMPL % (prop, prop))
+        if res.tier == "thorough" and pr["ok"]:
+            # forbidden-word grep over the cone of the property file and an independent re-check of the compiled
+            # files (coqchk), which also lists the axioms they rely on
+            import stores_lib
+            probs = stores_lib.thorough_extras(res, props_v)
+            if probs:
+                pr["ok"], pr["failed_file"], pr["error"] = False, props_v, "; ".join(probs)
     res.cov["trusted_base"] = vlib.TRUSTED_BASE_COMMON + TRUSTED_BROKER
     exe, err = vlib.build_harness("broker")
     if exe is None:
